@@ -138,6 +138,22 @@ CHECKS["C08"] = dict(
           "instrumentation. Lean part: kernel + propext/Classical.choice/Quot.sound only."),
 )
 
+CHECKS["C06"] = dict(
+    category="proof",
+    text=("Patch theorem in Lean (Properties/C06.lean on top of C03's element theorems), for every mesh: for an affine exact "
+          "solution the element gradient is exact on every non-degenerate triangle, each element's contribution to a nodal "
+          "equation is a flux term through the opposite side, and around a closed fan of elements with one coefficient tensor "
+          "these terms cancel — the interpolant of the affine field satisfies every interior nodal equation exactly. The "
+          "element model these theorems are about is the one tied bit-exactly to ESolver (C03). Decided per run on the REAL "
+          "tools: closed-form families with random dimensions / constants / units / depths / mesh sizes / smart-mesh settings "
+          "(plates with side-by-side dielectrics, slab with convection, uniform B across side-by-side permeabilities; planar, "
+          "axisymmetric, static and time-harmonic): every nodal value vs the closed form to solver precision, and stored "
+          "energy, conductor charge, heat flux and field values through the real post-processor. The convergence half "
+          "(non-affine classics: coaxial capacitor at two mesh sizes) is an error-decrease test, not a proof (labelled)."),
+    design_ref="DESIGN.md section 3, C06",
+    technique="Lean 4 proof (patch theorem: telescoping flux sums over a closed element fan, on the element model tied to the code in C03) + closed-form families executed on the real mesher / solvers / post-processor",
+)
+
 NOT_YET = "check not built yet in this round; planned per DESIGN.md section 3 (Lean model + correspondence)"
 
 
